@@ -80,6 +80,22 @@ def run(ctx):
       ctx.violation(f'C04:range:{what}', f'stored value out of range: {what} -> nbits={r.nbits} uint={r._uint}',
                     {'case': what, 'observed': [r.nbits, int(r._uint)]})
 
+  # a result is a value of its own: updating it in place (a legal use: `hit = a == b; hit @= hit & en`) must not change what
+  # the same operation returns afterwards (results that share a preallocated object would)
+  nprobe = [0]
+  def probe(r, again, what):
+    if isinstance(r, tuple) or not hasattr(r, '_uint') or rng.random() > 0.03: return
+    nprobe[0] += 1
+    v, w = int(r._uint), r.nbits
+    try:
+      r @= (v ^ 1) if w == 1 else ((~v) & ((1 << w) - 1))
+      r2 = again()
+    except Exception as e:
+      ctx.violation(f'C04:result-update:{type(e).__name__}', f'{what}: updating the returned value in place with @= raises {type(e).__name__}: {str(e)[:100]}', {'case': what}); return
+    if int(r2._uint) != v or r2.nbits != w:
+      ctx.violation('C04:shared-result', f'{what} returned Bits{w}({v}); after that RESULT object was updated in place with @=, the same operation on the same operands returns Bits{r2.nbits}({int(r2._uint)})',
+                    {'case': what, 'first_result': v, 'second_result': int(r2._uint)})
+
   for n in widths:
     big = n > 64
     vals = values(rng, n, 2 if big else 4)
@@ -112,6 +128,7 @@ def run(ctx):
             if r is x or r is y:
               ctx.violation(f'C04:alias:{op}', f'Bits{n}({a}).{DUNDER[op]}({o}) returns one of its operands instead of a new value object (in-place updates would leak)', {'op': op, 'n': n, 'a': a, 'operand': o})
             t, _ = bits_res(r)
+            probe(r, lambda: getattr(x, DUNDER[op])(y), f'Bits{n}({a}).{DUNDER[op]}({o})')
           else: t = r[0]
           add(f'BOp {op}', n, a, o, t, f'Bits{n}({a}).{DUNDER[op]}({o})')
           # Python-level dispatch (x op y) must agree with the dunder
@@ -139,6 +156,7 @@ def run(ctx):
           r = res_of(lambda: getattr(x, CMP[c])(y))
           t = r[0] if isinstance(r, tuple) else bits_res(r)[0]
           add(f'COp {c}', n, a, o, t, f'Bits{n}({a}).{CMP[c]}({o})')
+          probe(r, lambda: getattr(x, CMP[c])(y), f'Bits{n}({a}).{CMP[c]}({o})')
       r = ~x
       check_invariant(r, f'invert n={n} a={a}')
       add('Inv', n, a, ('other',), bits_res(r)[0], f'~Bits{n}({a})')
